@@ -14,11 +14,11 @@ ids=${*:-$(ls seeded | grep '^C')}
 for id in $ids; do
   d=seeded/$id
   prop=$(python3 -c "import json;print(json.load(open('$d/meta.json'))['breaks_property'])")
-  { git -C "$wt" apply "$PWD/$d/patch.diff" 2>/dev/null || git -C "$wt" apply -3 "$PWD/$d/patch.diff" 2>/dev/null || git -C "$wt" apply -C1 "$PWD/$d/patch.diff"; } || { echo "$id: patch does not apply"; continue; }   # context lines may have moved under later fix: commits
+  { git -C "$wt" apply "$PWD/$d/patch.diff" 2>/dev/null || { git -C "$wt" apply -3 "$PWD/$d/patch.diff" 2>/dev/null || { git -C "$wt" reset -q --hard HEAD; false; }; } || git -C "$wt" apply -C1 "$PWD/$d/patch.diff"; } || { echo "$id: patch does not apply"; continue; }   # context lines may have moved under later fix: commits
   for p in $prop ${EXTRA:-}; do for s in ${SEEDS:-0 1 2}; do
     out=$(SYNAPGRAD_REPO="$wt" VERIF_SEED=$s ./check "$p" --tier ${TIER:-quick} 2>&1); rc=$?
     v=$(echo "$out" | grep '^VIOLATION' | head -1 | cut -c1-160)
     echo "$id check=$p seed=$s rc=$rc $v"
   done; done
-  git -C "$wt" checkout -q -- . ; git -C "$wt" clean -fdq synapgrad
+  git -C "$wt" reset -q --hard HEAD; git -C "$wt" clean -fdq synapgrad
 done
